@@ -30,7 +30,7 @@ SWAPS = [(' == ', ' != '), (' != ', ' == '), (' < ', ' <= '), (' > ', ' >= '), (
          ('.RLock()', '.Lock()'), ('break', 'continue'), ('continue', 'break'), (' + 1', ' - 1'), ('i++', 'i--')]
 
 
-def gen(out, sample):
+def gen(out, sample, blocks=False):
     muts = []
     rnd = random.Random(18)
     for f, area in FILES.items():
@@ -47,17 +47,23 @@ def gen(out, sample):
             prev = lines[i - 1].rstrip() if i else ''
             cont = prev.endswith((',', '(', '&&', '||', '+', '{')) and not prev.rstrip().endswith(') {') and prev.endswith((',', '(', '&&', '||', '+'))
             # statement deletion
-            if SIMPLE.match(l) and not BAD_START.match(l) and not s.endswith(('{', ',', '(', '&&', '||')) and not cont and l.startswith('\t'):
+            if not blocks and SIMPLE.match(l) and not BAD_START.match(l) and not s.endswith(('{', ',', '(', '&&', '||')) and not cont and l.startswith('\t'):
                 cand.append((i, 'del', l, None))
             m = IF_RE.match(l)
-            if m and not cont:
+            if m and not cont and not blocks:
                 cand.append((i, 'neg', l, m.group(1) + m.group(2) + '!(' + m.group(3) + ')' + m.group(4)))
-            if not s.startswith('//'):
+            if not s.startswith('//') and not blocks:
                 for a, b in SWAPS:
                     if a in l:
                         cand.append((i, 'swap:' + a.strip() + '>' + b.strip(), l, l.replace(a, b, 1)))
-            if s.startswith('return ') and (s.endswith(', err') or 'runInfo.err' in s):
-                pass
+            # whole-block deletion: a one-clause poll (select), a guard (if without else), a deferred recover literal
+            if blocks and (s == 'select {' or (s.startswith('if ') and s.endswith('{')) or s == 'defer func() {') and not cont:
+                ind = l[:len(l) - len(l.lstrip())]
+                j = i + 1
+                while j < len(lines) and not (lines[j].startswith(ind + '}') and not lines[j].startswith(ind + '\t')):
+                    j += 1
+                if j < len(lines) and lines[j].strip() in ('}', '}()') and j - i <= 12:
+                    cand.append((i, 'delblock%d' % (j - i + 1), l, None))
         if sample and len(cand) > sample:
             # keep everything that touches what the properties are about, sample the rest
             hot = re.compile(r'Lock|Unlock|ctx|Done|recover|defer|ErrInterrupt|Err(Break|Continue|Return)|go |chan|Chan|Send|Recv|Close|Select|runDefers|defers|goCall|Copy|parent|externalLookup|finally|Finally|Catch|catch|throw|Throw')
@@ -96,6 +102,8 @@ def apply(wt, m):
     assert lines[m['line'] - 1] == m['old'], m['id']
     if m['op'] == 'del':
         del lines[m['line'] - 1]
+    elif m['op'].startswith('delblock'):
+        del lines[m['line'] - 1:m['line'] - 1 + int(m['op'][8:])]
     else:
         lines[m['line'] - 1] = m['new']
     open(p, 'w').write('\n'.join(lines))
@@ -200,6 +208,8 @@ if __name__ == '__main__':
     ph, out = sys.argv[1], sys.argv[2]
     if ph == 'gen':
         gen(out, int(sys.argv[3]) if len(sys.argv) > 3 else 0)
+    elif ph == 'genblocks':
+        gen(out, int(sys.argv[3]) if len(sys.argv) > 3 else 0, True)
     elif ph == 'filter':
         phase_filter(out, int(sys.argv[3]) if len(sys.argv) > 3 else 6)
     elif ph == 'check':
